@@ -67,6 +67,61 @@ MUTANTS = [
          "            random.shuffle(k_list)\n", "            random.shuffle(list(k_list))\n")]),
     dict(name="fast-sort-after-shuffle-pairs", property="C03", edits=[(FAST,
          "            random.shuffle(k_list)\n", "            random.shuffle(k_list)\n            k_list[:2] = sorted(k_list[:2])\n            k_list[:] = k_list[:1] + sorted(k_list[1:3]) + k_list[3:]\n")]),
+    # ---- C05 ------------------------------------------------------------------------------
+    dict(name="revert-fix-patched-tuple", property="C05", edits=[(JD, "jds[j] = tuple(t)", "jds[j] = t")]),
+    dict(name="patch-adds-extra-motif", property="C05", edits=[(JD,
+         "for j in range(self._motif_sizes[i] - ntop % self._motif_sizes[i]):",
+         "for j in range(2 * self._motif_sizes[i] - ntop % self._motif_sizes[i]):")]),
+    dict(name="patch-removes-stubs", property="C05", edits=[(JD,
+         "for j in range(self._motif_sizes[i] - ntop % self._motif_sizes[i]):",
+         "for j in range(ntop % self._motif_sizes[i]):"), (JD, "t[i] += 1", "t[i] -= 1")]),
+    dict(name="sample-ignores-weights", property="C05", edits=[(JD,
+         "random.choices(population=keys, weights=weights, k=N)", "random.choices(population=keys, k=N)")]),
+    dict(name="handshake-first-topology-only", property="C05", edits=[(JD,
+         "for i, ntop in enumerate(ntops):", "for i, ntop in enumerate(ntops[:2]):")]),
+    dict(name="sample-short-for-large-N", property="C05", edits=[(JD,
+         "random.choices(population=keys, weights=weights, k=N)",
+         "random.choices(population=keys, weights=weights, k=N if N < 12 else N - 1)")]),
+    dict(name="sample-normalises-source-in-place", property="C05", edits=[(JD,
+         "        keys = list(self._jdd.keys())\n", "        self.normalise_jdd()\n        keys = list(self._jdd.keys())\n")]),
+    # ---- C09 ------------------------------------------------------------------------------
+    dict(name="revert-fix-sorted-subcliques", property="C09", edits=[(EECC,
+         "combinations(sorted(C[c]), self._m0)", "combinations(C[c], self._m0)")]),
+    dict(name="eecc-greedy-skips-edge-removal-of-last-pair", property="C09", edits=[(EECC,
+         "            for i in range(max_ord):\n                for j in range(i + 1, max_ord):\n                    # assumes edges are ordered i < j\n                    self.remove_edge(cli[i], cli[j])",
+         "            for i in range(max_ord):\n                for j in range(i + 1, max_ord if max_ord < 4 else max_ord - 1):\n                    # assumes edges are ordered i < j\n                    self.remove_edge(cli[i], cli[j])")]),
+    dict(name="eecc-picks-smallest-on-tie-of-three", property="C09", edits=[(EECC,
+         "            cli = C[idx]\n", "            cli = C[idx] if len(indexes_to_sample) < 3 else C[idx][: max(2, len(C[idx]) - 1)]\n")]),
+    dict(name="eecc-m0-plus-one", property="C09", edits=[(EECC,
+         "            if clique_size > self._m0:", "            if clique_size > self._m0 + (1 if self._m0 >= 4 else 0):")]),
+    dict(name="eecc-score-zero-includes-near-zero", property="C09", edits=[(EECC,
+         "            if r[c] == 0:", "            if r[c] < 0.2:")]),
+    dict(name="eecc-final-dedup", property="C09", edits=[(EECC,
+         "        return sorted(EC, key=lambda x: (-len(x), x[0], x[1]))",
+         "        return sorted([list(t) for t in {tuple(x[:3]) for x in EC}], key=lambda x: (-len(x), x[0], x[1]))")]),
+    # ---- C10 ------------------------------------------------------------------------------
+    dict(name="mpcc-no-size-sort", property="C10", edits=[(MPCC,
+         "    cliques = sorted(cliques, key=len, reverse=True)\n", "")]),
+    dict(name="mpcc-ascending-sort", property="C10", edits=[(MPCC,
+         "cliques = sorted(cliques, key=len, reverse=True)", "cliques = sorted(cliques, key=len)")]),
+    dict(name="mpcc-no-claim", property="C10", edits=[(MPCC,
+         "            g.remove_edges_from(list(itertools.combinations(c, 2)))\n", "")]),
+    dict(name="mpcc-id-not-advanced-for-pairs", property="C10", edits=[(MPCC,
+         "        ID: int = next(clique_ID)\n", "        ID: int = next(clique_ID) if len(c) != 2 else 0\n")]),
+    dict(name="mpcc-limit-off-by-one", property="C10", edits=[(MPCC,
+         "if len(c) > max_size and max_size > 0:", "if len(c) > max_size + 1 and max_size > 2:")]),
+    dict(name="mpcc-sort-stability-broken-by-vertex", property="C10", edits=[(MPCC,
+         "cliques = sorted(cliques, key=len, reverse=True)", "cliques = sorted(cliques, key=lambda c: (len(c) if len(c) != 4 else 2), reverse=True)")]),
+    # ---- C18 ------------------------------------------------------------------------------
+    dict(name="revert-fix-phi0", property="C18", edits=[(BP, "random.random() >= phi", "random.random() > phi")]),
+    dict(name="bp-inverted", property="C18", edits=[(BP, "random.random() >= phi", "random.random() < phi")]),
+    dict(name="bp-denominator-edges", property="C18", edits=[(BP,
+         "return float(len(Gcc[0])) / G.order()", "return float(len(Gcc[0])) / max(G.order(), G.number_of_edges())")]),
+    dict(name="bp-mutates-input", property="C18", edits=[(BP, "G: nx.Graph = g.copy()", "G: nx.Graph = g")]),
+    dict(name="bp-one-draw-per-call", property="C18", edits=[(BP,
+         "    es: list = [e for e in G.edges() if random.random() >= phi]",
+         "    r = random.random()\n    es: list = [e for e in G.edges() if r >= phi]")]),
+    dict(name="bp-phi-squared", property="C18", edits=[(BP, "random.random() >= phi", "random.random() >= phi * (2 - phi)")]),
     # ---- C20 ------------------------------------------------------------------------------
     dict(name="drawset-remove-last-slot", property="C20", edits=[(DRAW,
          "if position != len(self._edges):", "if position < len(self._edges) - 1:")]),
@@ -81,6 +136,14 @@ MUTANTS = [
 ]
 
 VARIANTS = [
+    dict(name="mpcc-returns-labelled-copy", property="C10", edits=[(MPCC,
+         "            G.edges[e[0], e[1]][\"clique\"] = f\"{len(c)}-{c}-{ID}\"\n\n    return G",
+         "            g.add_edge(e[0], e[1])\n            g.edges[e[0], e[1]][\"clique\"] = f\"{len(c)}-{c}-{ID}\"\n\n    return g")]),
+    dict(name="sample-randint-instead-of-randrange", property="C05", edits=[(JD,
+         "j = random.randrange(0, len(jds))", "j = random.randint(0, len(jds) - 1)")]),
+    dict(name="sample-choice-loop", property="C05", edits=[(JD,
+         "jds = random.choices(population=keys, weights=weights, k=N)",
+         "jds = [random.choices(keys, weights)[0] for _ in range(N)]")]),
     dict(name="fast-shuffle-via-sample", property="C03", edits=[(FAST,
          "            random.shuffle(k_list)\n", "            k_list[:] = random.sample(k_list, len(k_list))\n")]),
     dict(name="fast-shuffle-via-sample-c01", property="C01", edits=[(FAST,
